@@ -28,12 +28,24 @@ CHECKS = {
     text="Every generated value is rendered as four instance documents (fresh prefixes on the root; default namespace for the root with prefixes declared at first use; default namespace re-declared on every element; pretty-printed with single quotes). yaserde::de::from_str must succeed on each, yield a value whose Debug text equals that of the value built from the Rust literal, re-serialize to a document infoset-equal to the instance, and ser(de(ser(v))) must equal ser(v) byte for byte.",
     note="Trusted: roxmltree, the instance renderer and value generator (values.rs). Gate: a derived simple type used across namespaces (open finding F45, replayed separately). Same yaserde exclusions as C03.",
     design="DESIGN.md section 4 C04"),
+ "C05": dict(
+    category="exploration",
+    technique="generative testing of WSDL clients: proptest-generated document/literal WSDLs -> zeep -> syn method census + compiled driver (complete envelope literals, method signatures bound as function items) + serialized requests compared with the expected SOAP infoset + response instances deserialized",
+    text="For a hundred (thorough: two thousand) generated WSDLs with 1-5 operations of all shapes: exactly one pub async snake_case method per operation on the service type; every Input/Output envelope (Envelope, Header, Body) is built with a complete literal and each method is bound with its exact argument and future output type; every serialized request must be soapenv:Envelope > [Header > bound header elements under their own QNames] > Body > exactly the bound body element with the expected payload infoset; response envelopes in three surface styles must deserialize to the value built from the literal; Service::new(None).location must equal the port address.",
+    note="Trusted: roxmltree, values.rs, syn, rustc. Operation, part and service names are canonical (keyword and injection names are C14's domain). Gates: F17 (prelude-colliding names), F45 (derived simple types across namespaces).",
+    design="DESIGN.md section 4 C05"),
  "C06": dict(
     category="exploration",
     technique="property-based differential testing: exhaustive small-bound sweep + proptest-generated triples against an executable XSD-facet specification (i128)",
     text="Every (carrier, value, restriction set) triple in an exhaustive small-bound sweep (all subsets of the numeric facets, of the length facets and of an enumeration pool, all integer carriers with their extremes, multi-byte strings) and tens of thousands of proptest-generated full-range triples with Option/Vec nesting are run through the helper source compiled unmodified from /repo and compared with an independent facet specification. Disagreements are minimised to their cause and shrunk. Held = no disagreement on anything explored; not a proof for all i32 bounds.",
     note="Trusted: the harness's facet specification (c06.rs spec_leaf), rustc. Text that is a decimal/float/padded numeral under numeric facets is generated but not judged.",
     design="DESIGN.md section 4 C06"),
+ "C07": dict(
+    category="exploration",
+    technique="property-based testing with planted violations: values with a facet violation injected at a generated position versus conforming twins, judged by check_restrictions inside a compiled driver and by a loopback listener that records whether anything was transmitted",
+    text="For generated WSDLs whose payload types use restricted simple types at every position (elements, attributes, optional, repeated, nested, header and body, inherited, derived from restricted types) each operation gets a conforming request and one with a violation planted at a tape-chosen leaf; up to five bare complex-type roots per schema get the same. check_restrictions(None) must fail exactly for the planted ones (facets of the type and of all its ancestors count). Calling the generated method with the violating request must yield SoapError::Restriction while the listener sees no such request; the conforming request must arrive.",
+    note="Trusted: the facet model in values.rs (merged facets of the derivation chain), the loopback listener (requests are identified by their serialized body). Types whose derivation chain has an empty value space are skipped.",
+    design="DESIGN.md section 4 C07"),
  "C08": dict(
     category="exploration",
     technique="generative differential testing on extension forests: C02's syn comparison and typed driver restricted to derived structs, plus a namespace check of every element member's yaserde prefix",
@@ -94,6 +106,12 @@ CHECKS = {
     text="Hundreds of generated CLI scenarios are executed against the zeep binary built from the current tree. Exit 0 requires the output file to equal the library's bytes for the same contents with no stale tail; a non-zero exit requires the pre-existing output to be byte-identical; inputs the library accepts must succeed under every path spelling and working directory. Failures are shrunk to a minimal scenario.",
     note="Trusted: in-process library bytes as reference (C12 holds on this tree). Run as root: permission-based failures are replaced by uncreatable targets and a non-UTF-8 sibling. A file created where none existed before a failing run is not judged (the statement speaks of pre-existing output).",
     design="DESIGN.md section 4 C17"),
+ "C18": dict(
+    category="exploration",
+    technique="generative compile-time testing: for every generated client rustc must accept a module that passes each method future and free-standing operation future to assert_send, asserts Send+Sync for every envelope type and spawns the calls on a multi-thread tokio runtime",
+    text="For generated WSDL clients of all operation shapes rustc type-checks Send assertions on the future of every service method and of every free-standing operation function, Send + Sync assertions on all envelope types, and a tokio::spawn of each call on a multi-thread runtime. A diagnostic inside the assertion module is a C18 failure (e.g. an Rc held across an await).",
+    note="Trusted: rustc's auto-trait checking. Nothing is executed against a network.",
+    design="DESIGN.md section 4 C18"),
  "C19": dict(
     category="exploration",
     technique="property-based testing with a bare-twin oracle: proptest values of hand-written yaserde probe types, bare vs MultiRef-wrapped, compared on bytes, Debug, restriction verdicts and Arc sharing",
